@@ -57,6 +57,31 @@ add("F51", "C05", "open", "a money literal '<amount><k|M> <symbol>' ends before 
     {"sub": "percent", "case": {"phrase": "Minus", "x": {"Money": mlit(1, "usd", {"SymAfter": 1}, suffix="k")}, "b": {"Plain": {"v": 1.0, "sign": 0, "group": False}}, "p": {"p": {"v": 10.0, "sign": 0, "group": False}, "prefix": False}, "op_space": [1, 1], "seps": 0}},
     signature="X (or B) is a money literal with magnitude suffix and symbol after a blank AND the result is X alone / Err(No more token)")
 
+# ---- C07 -------------------------------------------------------------------------------------
+add("F60", "C07", "fixed", "format_number rounded three times independently: 0.995 printed '0', 99.995 printed '99.' with rounding off, 1e21 lost a digit, 5.001 printed '5' with rounding off",
+    {"sub": "print", "case": {"bits": 4607137382803743703, "kind": "Number", "dec": ",", "thou": ".", "digits": 2, "remove_zero": True, "rounding": True}}, commit="b83d037")
+add("F60b", "C07", "fixed", "with rounding disabled 99.995 printed '99.' (fraction digits taken from a different rounding than the integer part)",
+    {"sub": "print", "case": {"bits": 4636736939510915400, "kind": "Number", "dec": ".", "thou": ",", "digits": 2, "remove_zero": True, "rounding": False}}, commit="b83d037")
+
+# ---- C09 -------------------------------------------------------------------------------------
+def dlit(y, m, d):
+    return {"y": y, "m": m, "d": d, "spell": {"DMonY": [0, 0, 0]}}
+def c09(shape, lang="en"):
+    return {"sub": "dates", "case": {"lang": lang, "shape": shape}}
+add("F05b", "C09", "fixed", "'15 nov 2021 + 1 month' computed month 0 and panicked; December results were unreachable",
+    c09({"Arith": [dlit(2021, 11, 15), True, 1, "Months", 1, None]}), commit="f248311")
+add("F80", "C09", "open", "subtracting months across a year boundary does not borrow the year: '15 mar 2021 - 4 months' is 15 Nov 2021 (and '- 3 months' is an error); pinned by tests execute_21..23",
+    c09({"Arith": [dlit(2021, 3, 15), False, 4, "Months", 1, None]}),
+    signature="D - N months with (N mod 12) >= month(D) AND the result equals the library's decompose-into-365/30-day algorithm without year borrow (or its error)")
+add("F81", "C09", "open", "a day/week count of 30 days or more is applied as calendar years/months plus a remainder: '15 jan 2021 + 45 days' is 2 Mar 2021 (a Duration does not remember its unit; pinned by test execute_26)",
+    c09({"Arith": [dlit(2021, 1, 15), True, 45, "Days", 1, None]}),
+    signature="D +- N days|weeks with N*len >= 30 days AND the result equals the decompose-into-365/30-day algorithm (or its error)")
+add("F82", "C09", "open", "years are applied before months through an intermediate date: '29 feb 2020 + 14 months' is an error although 29 Apr 2021 exists",
+    c09({"Arith": [dlit(2020, 2, 29), True, 14, "Months", 1, None]}),
+    signature="start is 29 Feb, N >= 12 months, Err(Unknown calculation) where the intermediate year is not a leap year")
+add("F140", "C09", "fixed", "only one long and one short month name per language survived config loading: '12 subat 2020' (tr) evaluated to 2032",
+    c09({"Literal": {"y": 2020, "m": 2, "d": 12, "spell": {"DMonY": [1, 0, 0]}}}, lang="tr"), commit="c2bb967")
+
 EXTRA = "tools/kf_extra.py"
 try:
     exec(open("/verif/" + EXTRA).read())
